@@ -9,6 +9,8 @@ ChanD(s, fd) == [s |-> s, kind |-> "chan", life |-> 0, held |-> 0, dl |-> -10000
                  children |-> <<>>, fds |-> <<fd>>, synth |-> <<>>, ondrop |-> 0]
 ExecD(s, fd, held) == [s |-> s, kind |-> "exec", life |-> 0, held |-> held, dl |-> -1000000, hasdl |-> 0, cap |-> -1,
                        children |-> <<>>, fds |-> <<fd>>, synth |-> <<>>, ondrop |-> 0]
+StreamD(s, fd) == [s |-> s, kind |-> "stream", life |-> 0, held |-> 0, dl |-> -1000000, hasdl |-> 0, cap |-> -1,
+                   children |-> <<>>, fds |-> <<fd>>, synth |-> <<>>, ondrop |-> 0]
 TimerD(s, dl) == [s |-> s, kind |-> "timer", life |-> 0, held |-> 1, dl |-> dl, hasdl |-> 1, cap |-> -1,
                   children |-> <<>>, fds |-> <<>>, synth |-> <<>>, ondrop |-> 0]
 CompD(s, fds, modes, life, held) ==
@@ -25,6 +27,7 @@ DeclLifeSynth == <<[CompD(1, <<11, 12>>, <<"level", "level">>, 1, 0) EXCEPT !.sy
 DeclDrop  == <<[PingD(1, 10, 0) EXCEPT !.ondrop = 1], [CompD(2, <<11>>, <<"level">>, 0, 0) EXCEPT !.ondrop = 1], PingD(3, 12, 0)>>
 DeclChan  == <<ChanD(1, 10), PingD(2, 11, 0), ChanD(3, 12)>>
 DeclExec  == <<ExecD(1, 10, 0), PingD(2, 11, 0)>>
+DeclStream == <<StreamD(1, 10), PingD(2, 11, 0)>>
 DeclEdge  == <<CompD(1, <<11>>, <<"edge">>, 0, 0), CompD(2, <<12>>, <<"oneshot">>, 0, 1)>>
 
 AllRets == {"continue", "reregister", "disable", "remove", "err"}
